@@ -545,3 +545,306 @@ pub fn gen_c10(r: &mut Rng, long: bool) -> (String, Sim) {
     );
     (class, sim)
 }
+
+// ---------------------------------------------------------------------------
+// C09 / C14: slave-side measurements
+
+/// An instance with one or two ports whose port 0 is made slave of master 0.
+pub fn slave_setup(r: &mut Rng, p2p: bool) -> (Sim, World) {
+    let mut icfg = rand_inst_cfg(r);
+    icfg.quality.0 = *r.pick(&[248u8, 255, 187]);
+    icfg.prio1 = 128;
+    let np = 1 + r.below(2) as usize;
+    let cfgs: Vec<PortCfg> = (0..np)
+        .map(|i| {
+            let mut c = rand_port_cfg(r);
+            c.acceptable = None;
+            if i == 0 {
+                c.master_only = false;
+                c.p2p = p2p;
+            }
+            c
+        })
+        .collect();
+    let mut sim = Sim::new(icfg, cfgs);
+    let mut w = World::new(r, &sim, 2);
+    w.masters[0].ann.prio1 = 10;
+    w.masters[0].ann.steps = r.below(3) as u16;
+    w.masters[0].ann.gm = w.masters[0].clock;
+    w.masters[1].ann.prio1 = 200;
+    for _ in 0..2 {
+        let f = w.announce_frame(0, &[]);
+        sim.step(Ev::RecvGeneral(0, f));
+    }
+    sim.step(Ev::Bmca);
+    w.observe(&sim);
+    (sim, w)
+}
+
+pub fn sync_frames(r: &mut Rng, w: &mut World, m: usize, two_step: bool, t2: u128) -> (Vec<u8>, Vec<u8>) {
+    let ms = &mut w.masters[m];
+    ms.sync_seq = ms.sync_seq.wrapping_add(1);
+    let (clock, port, seq) = (ms.clock, ms.port, ms.sync_seq);
+    let t1 = t2.saturating_sub((r.below(400_000) as u128) * FRAC + r.below(1 << 32) as u128);
+    let (s, n) = wire_ts(t1);
+    let mut h = w.hdr(SYNC, clock, port, seq);
+    h.flags[0] = if two_step { 2 } else { 0 };
+    h.correction = corr(r);
+    let sync = frame(&h, &ts10(s, n), &[]);
+    let mut h2 = w.hdr(FOLLOW_UP, clock, port, seq);
+    h2.correction = corr(r);
+    let fup = frame(&h2, &ts10(s, n), &[]);
+    (sync, fup)
+}
+
+pub fn gen_c09(r: &mut Rng) -> (String, Sim) {
+    let (mut sim, mut w) = slave_setup(r, false);
+    let own = sim.icfg.clock_identity;
+    let mut kinds = std::collections::BTreeSet::new();
+    let n = 15 + r.below(30);
+    let mut stash: Vec<Ev> = Vec::new(); // delayed / duplicated deliveries
+    for _ in 0..n {
+        let ev = match r.below(16) {
+            0..=3 => {
+                let two = r.chance(2, 3);
+                let t2 = w.tick(r);
+                let m = if r.chance(7, 8) { 0 } else { 1 };
+                let (s, f) = sync_frames(r, &mut w, m, two, t2);
+                kinds.insert(if two { "2step" } else { "1step" });
+                let (first, second) = if r.chance(1, 5) {
+                    kinds.insert("fup-first");
+                    (Ev::RecvGeneral(0, f.clone()), Ev::RecvEvent(0, s.clone(), t2))
+                } else {
+                    (Ev::RecvEvent(0, s.clone(), t2), Ev::RecvGeneral(0, f.clone()))
+                };
+                if two && !r.chance(1, 8) {
+                    stash.push(second);
+                }
+                if r.chance(1, 6) {
+                    kinds.insert("dup");
+                    stash.push(Ev::RecvEvent(0, s, t2 + r.below(1000) as u128));
+                }
+                if r.chance(1, 8) {
+                    stash.push(Ev::RecvGeneral(0, f));
+                }
+                first
+            }
+            4..=6 => {
+                if stash.is_empty() {
+                    Ev::DelayReqTimer(0)
+                } else {
+                    let k = r.below(stash.len() as u64) as usize;
+                    stash.remove(k)
+                }
+            }
+            7..=8 => Ev::DelayReqTimer(0),
+            9..=10 => {
+                if sim.pending[0].is_empty() {
+                    Ev::DelayReqTimer(0)
+                } else {
+                    let k = r.below(sim.pending[0].len() as u64) as usize;
+                    kinds.insert("ts");
+                    Ev::SendTimestamp(0, k, w.tick(r))
+                }
+            }
+            11..=13 => {
+                let t4 = w.tick(r);
+                let (seq, _) = w.last_delay_req[0].clone().unwrap_or((0, vec![]));
+                let m = if r.chance(7, 8) { 0 } else { 1 };
+                let ms = &w.masters[m];
+                let seq = match r.below(8) {
+                    0 => seq.wrapping_sub(1),
+                    1 => seq.wrapping_add(1),
+                    _ => seq,
+                };
+                let mut h = w.hdr(DELAY_RESP, ms.clock, ms.port, seq);
+                h.correction = corr(r);
+                let (s, n) = wire_ts(t4);
+                let mut body = ts10(s, n);
+                body.extend_from_slice(&pid10(if r.chance(7, 8) { own } else { 0x42 }, if r.chance(7, 8) { 1 } else { 2 }));
+                kinds.insert("dresp");
+                let ev = Ev::RecvGeneral(0, frame(&h, &body, &[]));
+                if r.chance(1, 8) {
+                    if let Ev::RecvGeneral(_, f) = &ev {
+                        stash.push(Ev::RecvGeneral(0, f.clone()));
+                    }
+                }
+                ev
+            }
+            14 => {
+                // keep the parent alive / let BMCA run
+                if r.chance(1, 2) {
+                    let f = w.announce_frame(0, &[]);
+                    Ev::RecvGeneral(0, f)
+                } else {
+                    Ev::Bmca
+                }
+            }
+            _ => {
+                // the other master takes over sometimes
+                w.masters[1].ann.prio1 = 5;
+                let f = w.announce_frame(1, &[]);
+                kinds.insert("takeover");
+                Ev::RecvGeneral(0, f)
+            }
+        };
+        if !sim.step(ev) {
+            break;
+        }
+        w.observe(&sim);
+    }
+    let meas = sim.results.iter().filter(|x| x.contains("OFilterMeas")).count();
+    let class = format!(
+        "c09:{}:m{}:{}:{}",
+        if sim.panicked { "panic" } else { "ok" },
+        meas.min(9),
+        kinds.iter().cloned().collect::<Vec<_>>().join("+"),
+        w.visited.iter().cloned().collect::<Vec<_>>().join("")
+    );
+    (class, sim)
+}
+
+// ---------------------------------------------------------------------------
+// C14: peer delay
+
+pub fn gen_c14(r: &mut Rng) -> (String, Sim) {
+    // P2P port 0; slave of a master half of the time, otherwise whatever state it is in
+    let (mut sim, mut w) = if r.chance(1, 2) {
+        slave_setup(r, true)
+    } else {
+        let icfg = rand_inst_cfg(r);
+        let mut c = rand_port_cfg(r);
+        c.p2p = true;
+        c.acceptable = None;
+        let sim = Sim::new(icfg, vec![c]);
+        let w = World::new(r, &sim, 2);
+        (sim, w)
+    };
+    let own = sim.icfg.clock_identity;
+    let resp_ids = [0x4400_0000_0000_0000u64, 0x4500_0000_0000_0000];
+    let mut kinds = std::collections::BTreeSet::new();
+    let mut stash: Vec<Ev> = Vec::new();
+    let n = 12 + r.below(30);
+    let mut want_ts = false;
+    for _ in 0..n {
+        let roll = if want_ts && r.chance(3, 4) { 3 } else { r.below(16) };
+        want_ts = false;
+        let ev = match roll {
+            0..=2 => {
+                want_ts = true;
+                Ev::DelayReqTimer(0)
+            }
+            3..=4 => {
+                // transmit timestamp of a pending pdelay request (or any pending context)
+                if sim.pending[0].is_empty() {
+                    Ev::DelayReqTimer(0)
+                } else {
+                    let k = if r.chance(3, 4) {
+                        sim.pending[0].len() - 1
+                    } else {
+                        r.below(sim.pending[0].len() as u64) as usize
+                    };
+                    Ev::SendTimestamp(0, k, w.tick(r))
+                }
+            }
+            5..=10 => {
+                // response and follow-up from responder A (mostly) or B
+                let who = if r.chance(11, 12) { 0 } else { 1 };
+                if who == 1 {
+                    kinds.insert("second-responder");
+                }
+                let seq0 = w.last_pdelay_req[0].unwrap_or(0);
+                let seq = match r.below(10) {
+                    0 => seq0.wrapping_sub(1),
+                    1 => seq0.wrapping_add(1),
+                    _ => seq0,
+                };
+                let t4 = w.tick(r);
+                let t2 = t4.saturating_sub((r.below(1 << 20) as u128) * FRAC);
+                let t3 = t2 + (r.below(1 << 18) as u128) * FRAC;
+                let two = r.chance(2, 3);
+                let (s2, n2) = wire_ts(t2);
+                let (s3, n3) = wire_ts(t3);
+                let req_port = if r.chance(9, 10) { 1 } else { 2 };
+                let req_clock = if r.chance(9, 10) { own } else { 0x42 };
+                let mut body = ts10(s2, n2);
+                body.extend_from_slice(&pid10(req_clock, req_port));
+                let mut h = w.hdr(PDELAY_RESP, resp_ids[who], 1, seq);
+                h.flags[0] = if two { 2 } else { 0 };
+                h.correction = corr(r);
+                let resp = Ev::RecvEvent(0, frame(&h, &body, &[]), t4);
+                let mut body3 = ts10(s3, n3);
+                body3.extend_from_slice(&pid10(req_clock, req_port));
+                let mut h3 = w.hdr(PDELAY_RESP_FOLLOW_UP, resp_ids[who], 1, seq);
+                h3.correction = corr(r);
+                let f3 = frame(&h3, &body3, &[]);
+                let fup = if r.chance(1, 6) {
+                    Ev::RecvEvent(0, f3, t4)
+                } else {
+                    Ev::RecvGeneral(0, f3)
+                };
+                kinds.insert(if two { "2step" } else { "1step" });
+                if r.chance(1, 5) {
+                    kinds.insert("fup-first");
+                    stash.push(resp);
+                    fup
+                } else {
+                    if two || r.chance(1, 3) {
+                        stash.push(fup);
+                    }
+                    if r.chance(1, 6) {
+                        kinds.insert("dup");
+                        if let Ev::RecvEvent(_, f, t) = &resp {
+                            stash.push(Ev::RecvEvent(0, f.clone(), *t + 5));
+                        }
+                    }
+                    resp
+                }
+            }
+            11..=12 => {
+                if stash.is_empty() {
+                    Ev::DelayReqTimer(0)
+                } else {
+                    let k = r.below(stash.len() as u64) as usize;
+                    stash.remove(k)
+                }
+            }
+            13 => Ev::AnnounceReceiptTimer(0),
+            14 => {
+                if r.chance(1, 2) {
+                    Ev::Bmca
+                } else {
+                    let f = w.announce_frame(0, &[]);
+                    Ev::RecvGeneral(0, f)
+                }
+            }
+            _ => match r.below(4) {
+                0 => Ev::SyncTimer(0),
+                1 => Ev::AnnounceTimer(0),
+                2 => {
+                    let t2 = w.tick(r);
+                    let (s, _f) = sync_frames(r, &mut w, 0, false, t2);
+                    Ev::RecvEvent(0, s, t2)
+                }
+                _ => {
+                    let t = w.tick(r);
+                    let h = w.hdr(DELAY_REQ, 0x4200_0000_0000_0000, 1, 9);
+                    Ev::RecvEvent(0, frame(&h, &ts10(0, 0), &[]), t)
+                }
+            },
+        };
+        if !sim.step(ev) {
+            break;
+        }
+        w.observe(&sim);
+    }
+    let meas = sim.results.iter().filter(|x| x.contains("OFilterMeas")).count();
+    let class = format!(
+        "c14:{}:m{}:{}:{}",
+        if sim.panicked { "panic" } else { "ok" },
+        meas.min(9),
+        kinds.iter().cloned().collect::<Vec<_>>().join("+"),
+        w.visited.iter().cloned().collect::<Vec<_>>().join("")
+    );
+    (class, sim)
+}
